@@ -12,7 +12,7 @@ TRUSTED = [
     "Lean 4.33 kernel (thorough tier: leanchecker re-check of the property module)",
     "axioms propext, Classical.choice, Quot.sound only (audited per theorem with #print axioms); no sorry/native_decide",
     "Mathlib v4.33 as a library of proved lemmas",
-    "hand-written Lean model SF/Model/*.lean, tied to /repo by the correspondence run of this check (differential, sampled) and, for 27 views, by the translator tie (below)",
+    "hand-written Lean model SF/Model/*.lean, tied to /repo by the correspondence run of this check (differential, sampled) and, for 28 views, by the translator tie (below)",
     "translator tools/rs2lean.py (its reading of the Rust subset the crate uses: &mut self as state passing, VecDeque/Vec as lists, usize as Nat with checked subtraction, unwrap/index/debug_assert as failing operations, the std functions of SF/GenPrelude.lean); the equality of its output with the model is NOT trusted: SF.GenEq.<View>.tie is kernel-checked on every run",
     "Rust harness (Dyn adapter, exact scalar Q with f64-bridged transcendental functions, panic capture, allocation meter)",
     "Lean compiler/runtime and libm for the executable Float/Rat instantiations of the model",
@@ -2258,7 +2258,7 @@ def check_property(pid, tier, seed, do_lean=True, write_evidence=True):
             generated_files_that_changed_on_this_run=tie.get("changed", []), skipped=tie.get("skipped"), axioms_of_the_tie_theorems=tie.get("axioms"), leanchecker=tie.get("leanchecker", "thorough tier only"),
             views_of_this_check_whose_tie_is_lost=tie_lost_final(tie, js), wall_s=tie.get("wall_s"), checker_cmd=tie.get("checker_cmd"),
             views_not_covered_by_the_translator="HLNormalizer, CenterOfGravity, CorrelationTrendIndicator, NoiseEliminationTechnology, "
-                                                "CyberCycle, LaguerreFilter, LaguerreRSI, TrendFlex, ReFlex, PolarizedFractalEfficiency, "
+                                                "CyberCycle, LaguerreRSI, TrendFlex, ReFlex, PolarizedFractalEfficiency, "
                                                 "EhlersFisherTransform (loops / iterator chains / index-heavy ladders): tied by the differential correspondence only",
             policy="quick tier: a lost tie widens the search for a failing input and is recorded here; it is reported as a violation "
                    "(no-failing-input-found) only in the thorough tier, or when the sampled correspondence breaks as well"),
